@@ -26,6 +26,11 @@
                           does not fail with MissingPrefix —, given unique prefixes per element in the
                           call's subtree (C15_serialises_unique_needed: closed witness without it)
     C15_serialises_root / _call_node   the two instances the property names
+    C15_serialises_inside for EVERY start node strictly inside the call's subtree too (its raw path
+                          shifts when namespace nodes before it go: the nodes are matched by position
+                          in `startPaths`, the raw-order list of non-namespace nodes)
+    C15_serialises_everywhere   … hence every start node of every tree in the C01 domain, any call node;
+                          C15_serialises_inside_only_elements_needed: closed witness without the second guard
     C15_representable     the call keeps a tree inside the C01 domain (`Representable`, decidable)
     C15_reparses_deep_equal   "… to text that reparses deep-equal to the original": whenever the tree
                           after the call serialises, the text parses back to exactly that tree, which
@@ -40,6 +45,7 @@ import XotModel.Lemmas.ScopeDedup
 import XotModel.Lemmas.DedupFuel
 import XotModel.Lemmas.DedupUnique
 import XotModel.Lemmas.DedupSerialise
+import XotModel.Lemmas.DedupInside
 import XotModel.Lemmas.DedupRoundTrip
 import XotModel.Props.C01
 
@@ -154,7 +160,7 @@ theorem C15_recursive_form (env : Env) (t : Tree) (path : Path) (sub : Tree)
     `deduplicate_namespaces(node)`, it does afterwards — for every start node that is not strictly
     inside the subtree of `node` (`q = path ++ r` only with `r = []`): the root, every ancestor of
     `node`, `node` itself, every node outside its subtree.  Such a node has the same raw path before and
-    after the call.
+    after the call.  (Start nodes strictly inside: `C15_serialises_inside`.)
     Hypothesis: no element of the call's subtree declares a prefix twice
     (`C15_serialises_unique_needed`). -/
 theorem C15_serialises (env : Env) (t t' : Tree) (path : Path) (sub : Tree)
@@ -177,6 +183,66 @@ theorem C15_serialises_call_node (env : Env) (t t' : Tree) (path : Path) (sub : 
     (hd : deduplicateNamespaces env t path = some t')
     (hw : namesWritable env t path = some true) : namesWritable env t' path = some true :=
   C15_serialises env t t' path sub hs hu hd path (fun _ h => List.self_eq_append_right.1 h) hw
+
+/-- **Every start node strictly inside the call's subtree.**  Its raw path may differ before and after
+    (namespace nodes before it or before one of its ancestors may be gone), so the nodes are matched by
+    their position in `startPaths`: the paths of all nodes that are not namespace nodes (nor inside
+    one), in raw document order — the enumeration `declsOfTree` / `C15_subset` use; `C15_frame` says
+    the nodes are the same.  For every position `i`: if `to_string` of the `i`-th node found every
+    prefix before the call, `to_string` of the `i`-th node finds every prefix after it.
+    Hypotheses (on the call's subtree): no element declares a prefix twice, and only elements carry
+    namespace nodes (`OnlyElementsDeclare`; the call looks at the declarations of elements only,
+    `namespaces_in_scope` at those of every ancestor). -/
+theorem C15_serialises_inside (env : Env) (t t' : Tree) (path : Path) (sub : Tree)
+    (hs : t.at? path = some sub) (hu : UniqueDeclsBelow sub) (ho : OnlyElementsDeclare sub)
+    (hd : deduplicateNamespaces env t path = some t') :
+    (startPaths t').length = (startPaths t).length ∧
+    ∀ (i : Nat) (q q' : Path), (startPaths t)[i]? = some q → (startPaths t')[i]? = some q' →
+      namesWritable env t q = some true → namesWritable env t' q' = some true :=
+  namesWritable_dedup_everywhere env t t' path sub hs hu ho hd
+
+def c15OnlyElWitness : Tree :=
+  .node (.element 0) [.node (.namespace 3 2) [],
+    .node (.comment []) [.node (.namespace 3 3) [],
+      .node (.element 1) [.node (.namespace 2 2) []]]]
+
+def c15OnlyElEnv : Env := { namespaces := [], prefixes := [], names := [(['a'], 0), (['a'], 2)] }
+
+/-- `OnlyElementsDeclare` is needed for the start nodes inside: a COMMENT node with children (not
+    constructible through the API) `xmlns:q="M"` and `<p:a xmlns:p="N"/>` below `<r xmlns:q="N">`:
+    the call does not see the comment's declaration and removes `xmlns:p="N"` (witness `q`), but
+    `namespaces_in_scope(p:a)` does see it: started at `p:a`, `to_string` finds a prefix for `N` before
+    and none after.  (Started at the root it fails neither before nor after.) -/
+theorem C15_serialises_inside_only_elements_needed :
+    ¬ ∀ (env : Env) (t t' : Tree), UniqueDeclsBelow t → deduplicateNamespaces env t [] = some t' →
+        ∀ (i : Nat) (q q' : Path), (startPaths t)[i]? = some q → (startPaths t')[i]? = some q' →
+          namesWritable env t q = some true → namesWritable env t' q' = some true := by
+  intro h
+  have hu : UniqueDeclsBelow c15OnlyElWitness := uniqueDeclsB_sound _ (by decide)
+  have key : ((deduplicateNamespaces c15OnlyElEnv c15OnlyElWitness []).bind fun t' =>
+      ((startPaths t')[2]?).bind fun q' => namesWritable c15OnlyElEnv t' q') = some false := by decide
+  cases hd : deduplicateNamespaces c15OnlyElEnv c15OnlyElWitness [] with
+  | none => simp [hd] at key
+  | some t' =>
+    simp only [hd, Option.bind_some] at key
+    cases hq' : (startPaths t')[2]? with
+    | none => simp [hq'] at key
+    | some q' =>
+      have := h c15OnlyElEnv c15OnlyElWitness t' hu hd 2 [1, 1] q' (by decide) hq' (by decide)
+      simp [hq', this] at key
+
+/-- In the C01 domain (`RepresentableFragment`: every node `nodeOK`, hence unique prefixes per element
+    and namespace nodes under elements only) both hypotheses hold for every call node: every start
+    node of a representable tree keeps serialising. -/
+theorem C15_serialises_everywhere (env : Env) (t t' : Tree) (path : Path)
+    (hr : RepresentableFragment env t = true) (hd : deduplicateNamespaces env t path = some t') :
+    (startPaths t').length = (startPaths t).length ∧
+    ∀ (i : Nat) (q q' : Path), (startPaths t)[i]? = some q → (startPaths t')[i]? = some q' →
+      namesWritable env t q = some true → namesWritable env t' q' = some true := by
+  obtain ⟨sub, hs⟩ := deduplicateNamespaces_isSome env t t' path hd
+  exact C15_serialises_inside env t t' path sub hs
+    ((uniqueDeclsBelow_of_representableFragment hr).at hs)
+    (OnlyElementsDeclare.at path t sub (onlyElementsDeclare_of_representableFragment hr) hs) hd
 
 def c15DupWitness : Tree :=
   .node (.element 0) [.node (.namespace 3 2) [],
@@ -249,6 +315,18 @@ example : declsOfTree (dedupPass {} c15TwoPassWitness [] c15TwoPassWitness).1 =
     (dedupPass {} c15TwoPassWitness [] c15TwoPassWitness).2 = true ∧
     (deduplicateNamespaces {} c15TwoPassWitness []).map declsOfTree =
       some [[(2, 2), (3, 3)], [], []] := by decide
+
+/-- The raw path of the innermost element of `c15TwoPassWitness` changes (`[2, 1]` before, `[2, 0]`
+    after: the namespace node before it is gone); `startPaths` matches the two by position. -/
+example : startPaths c15TwoPassWitness = [[], [2], [2, 1]] ∧
+    (deduplicateNamespaces {} c15TwoPassWitness []).map startPaths = some [[], [2], [2, 0]] ∧
+    namesWritable {} c15TwoPassWitness [2, 1] = some true := by decide
+
+example : UniqueDeclsBelow c15TwoPassWitness := uniqueDeclsB_sound _ (by decide)
+
+example : OnlyElementsDeclare c15TwoPassWitness := by
+  simp [OnlyElementsDeclare, c15TwoPassWitness, Tree.Forall, Tree.Forall.forallList, Value.isElement,
+    nsDecls_node, declsOfKids]
 
 /-- `<a xmlns="A" xmlns:p="B"><b xmlns:q="A" q:x=""><c xmlns:r="B"/></b></a>` (a, b in A; x in A;
     c in B): writable, and dedup removes `r` but must keep `q` (the attribute needs a non-empty prefix). -/
